@@ -1446,3 +1446,44 @@ def fmt_path(events, limit=40, kinds=None):
     if len(out) > limit:
         out = out[:limit // 2] + ['...'] + out[-limit // 2:]
     return out
+
+
+def caller_expr(evs, i, node, max_depth=4):
+    """the expression, in the scope of the outermost function of the path, that the Name `node` used by event evs[i] stands
+    for: a helper's parameter is mapped back through the ENTER events (which carry the call) to the caller's argument, and a
+    local bound exactly once in its function to a literal / name is replaced by that value.  Returns an ast expression."""
+    stack = []
+    for e in evs[:i + 1]:
+        if e.kind == 'ENTER':
+            stack.append(e)
+        elif e.kind == 'LEAVE' and stack:
+            stack.pop()
+    k = len(stack)
+    for _ in range(max_depth * 2):
+        if not isinstance(node, ast.Name):
+            break
+        scope = stack[k - 1].x['callee'].node if k > 0 else None
+        # a local bound once in its own function
+        if scope is not None or k == 0:
+            fnode = scope
+            if fnode is not None:
+                defs = [s_.value for s_ in ast.walk(fnode) if isinstance(s_, ast.Assign)
+                        and any(isinstance(t, ast.Name) and t.id == node.id for t in s_.targets)]
+                if len(defs) == 1 and isinstance(defs[0], (ast.Name, ast.List, ast.Tuple)):
+                    node = defs[0]
+                    continue
+        if k == 0:
+            break
+        en = stack[k - 1]
+        prm = en.x['callee'].params()[en.x.get('offset', 1):]
+        call = en.x.get('call')
+        if call is None or node.id not in prm:
+            break
+        idx = prm.index(node.id)
+        kw = next((kk.value for kk in call.keywords if kk.arg == node.id), None)
+        arg = call.args[idx] if idx < len(call.args) else kw
+        if arg is None:
+            break
+        node = arg
+        k -= 1
+    return node
